@@ -213,7 +213,7 @@ def gen_cache_ops(rng, n, threaded=False, subs=True, no_overwrite=False, close=T
         # codes >= 1000 are stored as a list / dict / numpy array / str / tuple / a falsy value (harness/impl/c20_impl.py: enc), so
         # that an overwrite (or delete + set again) also changes the type of the stored object
         val[0] += 1
-        if rng.random() < 0.06:
+        if rng.random() < 0.10:
             return rng.choice([6000, 7000, 8000, 9000])       # 0, [], '', {}: false in a boolean context
         return val[0] + (1000 * rng.randint(1, 5) if rng.random() < 0.3 else 0)
     for _ in range(n):
@@ -282,9 +282,10 @@ def gen_cache_ops(rng, n, threaded=False, subs=True, no_overwrite=False, close=T
 
 
 def small_cache_alphabet(typed=False):
-    if typed:       # the second value of key 0 is a list (an HDF5 group instead of a dataset)
-        return [([o[0], o[1], o[2], 1002] if o[0] == 'set' and o[3] == 2 else o) for o in small_cache_alphabet()]
-    return [['short', 0, [0]], ['short', 0, []], ['set', 0, 0, 1], ['set', 0, 0, 2], ['getitem', 0, 0], ['del', 0, 0],
+    if typed:       # the second value of key 0 is a list (an HDF5 group instead of a dataset); typed=7000: an empty list
+        return [([o[0], o[1], o[2], 1002 if typed is True else typed] if o[0] == 'set' and o[3] == 6000 else o) for o in small_cache_alphabet()]
+    # (the second value of key 0 is the integer 0 - code 6000 -: false in a boolean context)
+    return [['short', 0, [0]], ['short', 0, []], ['set', 0, 0, 1], ['set', 0, 0, 6000], ['getitem', 0, 0], ['del', 0, 0],
             ['preload', 0, [0], False], ['get', 0, 0], ['set', 0, 1, 3], ['getitem', 0, 1]]
 
 
@@ -592,9 +593,9 @@ def stream_cache(ctx, boost):
             cases.append({'storage': 'Storage', 'ops': [list(o) for o in seq]})
     # ---- the same alphabet (overwrite of key 0 with a value of another type) up to length 3 on the disk storages
     if ctx.replay_in is None:
-        alpha_t = small_cache_alphabet(typed=True)
         for st in ['PickleStorage'] + (['Hdf5Storage'] if have_h5 else []):
             for n in range(1, 4):
+                alpha_t = small_cache_alphabet(typed=True if n < 3 else 7000)
                 for seq in itertools.product(alpha_t, repeat=n):
                     cases.append({'storage': st, 'ops': [list(o) for o in seq]})
     # ---- sequential, random, every storage class, sub-caches, closing
@@ -752,7 +753,10 @@ RULE = ('events: every connect/disconnect/emit/emit_until sequence up to length 
         'alphabet on one key (in memory; up to length 3 on PickleStorage / Hdf5Storage, up to length 2 with the worker thread), plus '
         'random sequences (length <= 12 quick / 40 thorough) over 4 keys and up to 4 nested (sub-)caches for '
         'Storage / PickleStorage / Hdf5Storage, with and without the worker thread; overwrites, delete + set again and values of six '
-        'Python types (int, list, dict, numpy array, str, tuple) for every storage class; non-trivial = at least one write and one read.  '
+        'Python types (int, list, dict, numpy array, str, tuple) and the falsy values 0, [], \'\', {} (0 is the second value of the exhaustive '
+        'alphabet) for every storage class; operations: set, [], get (3 call forms), del, in, pop (2), popitem, setdefault, update (4), clear, '
+        'keys / len / iter, items / values, preload, set_short_term_keys, create_subcache, bool, close and reads after close; '
+        'non-trivial = at least one write and one read.  '
         'sched: worker schedules enforced by gates at the synchronisation points (see harness/c20_sched.py); distinct = distinct '
         '(storage, queue size, program, schedule).  sched-close: two fixed programs with close() under every schedule string of length 6 plus '
         'random programs with 0-3 close()/__exit__ calls; non-trivial = a close and another operation.  file-storage: random operation '
